@@ -20,7 +20,7 @@ ASSUMPTIONS = ["the exact successor of a multi-switch write is left open (only t
                "bulk selection of several switches under OneOfMany/AtMostOne must keep the invariants and must not raise"]
 QUICK_SHARDS = 2
 REQUIRED_EVENTS = ["states", "transitions", "published_updates_judged", "client_writes", "driver_assignments", "bulk_selections",
-                   "client_writes_with_injected_fault", "client_writes_prevented_by_a_write_handler", "writes_in_a_foreign_spelling", "transitions_with_hidden_switches", "state_graphs_with_nested_element_names", "hardware_selector_moves", "initial_configurations_declared_on_the_elements"]
+                   "client_writes_with_injected_fault", "client_writes_prevented_by_a_write_handler", "writes_in_a_foreign_spelling", "transitions_with_hidden_switches", "state_graphs_with_nested_element_names", "state_graphs_with_switches_kept_under_ordinary_words", "hardware_selector_moves", "initial_configurations_declared_on_the_elements"]
 EXHAUSTIVE_NOTE = "the complete reachable state graph for every rule, 1..5 switches (thorough: 1..7) and every initial configuration, every operation on every node"
 SHARDED = True
 RULES = ["OneOfMany", "AtMostOne", "AnyOfMany"]
@@ -37,8 +37,19 @@ def N(i):
     return _NAMES[0][i]
 
 
+PLAIN_KEYS = [f"s{i}" for i in range(8)]
+# keys (the Python attribute names the driver reaches its switches by) that are ordinary words - the ones a convenience accessor
+# of the vector class is most likely to be called too
+WORD_KEYS = ["on", "off", "selected", "active", "current", "first", "last", "default"]
+_KEYS = [PLAIN_KEYS]
+
+
+def K(i):
+    return _KEYS[0][i]
+
+
 def make_spec(rule, n, default_on, element_defaults=()):
-    els = [{"attr": f"s{i}", "name": N(i), "label": None, "default": ("On" if N(i) in element_defaults else None), "enabled": True} for i in range(n)]
+    els = [{"attr": K(i), "name": N(i), "label": None, "default": ("On" if N(i) in element_defaults else None), "enabled": True} for i in range(n)]
     vec = {"attr": "sw", "kind": "Switch", "name": "SW", "label": None, "state": None, "perm": None, "timeout": None, "enabled": True,
            "rule": rule, "default_on": default_on, "elements": els}
     return {"name": "DEV", "levels": [{"groups": [{"attr": "g", "name": "G", "enabled": True, "vectors": [vec]}]}]}
@@ -78,7 +89,7 @@ def operations(n):
 
 
 def read_state(vec, n):
-    return tuple(getattr(vec, f"s{i}").value == "On" for i in range(n))
+    return tuple(getattr(vec, K(i)).value == "On" for i in range(n))
 
 
 def judge_state(rule, pre, post):
@@ -99,9 +110,9 @@ def apply_op(router, rec, drv, vec, n, op):
         children = tuple(one_parts.OneSwitch(name=N(i), value=v) for i, v in op[1])
         router.process_message(M.NewSwitchVector(device="DEV", name="SW", children=children), sender=rec)
     elif kind == "value":
-        getattr(vec, f"s{op[1]}").value = op[2]
+        getattr(vec, K(op[1])).value = op[2]
     elif kind == "bool":
-        getattr(vec, f"s{op[1]}").bool_value = op[2]
+        getattr(vec, K(op[1])).bool_value = op[2]
     elif kind == "selected":
         vec.selected_value = N(op[1])
     elif kind == "selecteds":
@@ -125,7 +136,7 @@ def explore(ctx, rule, n, init, explored=None, via_element_defaults=False):
     def leaf_hook(ns, defs):
         from indi.device import events
         from indi.device.events import on
-        sources = [defs["g"].vectors["sw"].elements[f"s{i}"] for i in range(n)]
+        sources = [defs["g"].vectors["sw"].elements[K(i)] for i in range(n)]
 
         def failing_change(self, event):
             if faults["change"]:
@@ -149,7 +160,8 @@ def explore(ctx, rule, n, init, explored=None, via_element_defaults=False):
     router.register_client(rec)
     vec = D.vector_of(drv, "g", "sw")
     start = read_state(vec, n)
-    cfg = {"rule": rule, "n": n, "init": list(init), "via_element_defaults": via_element_defaults, "nested_names": {id(NESTED_NAMES): 1, id(NESTED_NAMES_REV): 2}.get(id(_NAMES[0]), 0)}
+    cfg = {"rule": rule, "n": n, "init": list(init), "via_element_defaults": via_element_defaults, "nested_names": {id(NESTED_NAMES): 1, id(NESTED_NAMES_REV): 2}.get(id(_NAMES[0]), 0),
+           "word_keys": _KEYS[0] is WORD_KEYS}
     if rule == "OneOfMany" and not any(init) and sum(start) == 1:
         # nothing was declared On: a library that then selects one switch itself satisfies the rule just as well as one that
         # leaves all of them Off - explore from where it starts
@@ -186,10 +198,10 @@ def explore(ctx, rule, n, init, explored=None, via_element_defaults=False):
                         from indi.message import one_parts
                         router.process_message(M.NewSwitchVector(device="DEV", name="SW", children=(one_parts.OneSwitch(name=N(op[1]), value=op[2]),)), sender=rec)
                     else:
-                        getattr(vec, f"s{op[1]}").value = op[2]
+                        getattr(vec, K(op[1])).value = op[2]
                 except Exception:
                     ctx.count("foreign_spellings_refused")
-                stored = [getattr(vec, f"s{i}")._value for i in range(n)]
+                stored = [getattr(vec, K(i))._value for i in range(n)]
                 shown = [(type(m).__name__, [c.value for c in m.children]) for m in rec.received if type(m).__name__ == "SetSwitchVector"]
                 for what, vals in [("state", stored)] + [("published", v) for _, v in shown]:
                     tol = tuple(str(getattr(v, "value", v)).strip().lower() == "on" for v in vals)
@@ -289,7 +301,7 @@ def explore_hidden(ctx, rule, n):
     rec = devmon.RecClient()
     router.register_client(rec)
     vec = D.vector_of(drv, "g", "sw")
-    els = [getattr(vec, f"s{i}") for i in range(n)]
+    els = [getattr(vec, K(i)) for i in range(n)]
     ops = []
     for i in range(n):
         for val in ("On", "Off"):
@@ -360,7 +372,7 @@ def explore_hardware(ctx, rule, n):
     def leaf_hook(ns, defs):
         from indi.device import events
         from indi.device.events import on
-        sources = [defs["g"].vectors["sw"].elements[f"s{i}"] for i in range(n)]
+        sources = [defs["g"].vectors["sw"].elements[K(i)] for i in range(n)]
 
         def poll(self, event):
             event.element.reset_value("On" if hw["sel"] == event.element.name else "Off")
@@ -378,10 +390,15 @@ def explore_hardware(ctx, rule, n):
                 rec = devmon.RecClient()
                 router.register_client(rec)
                 vec = D.vector_of(drv, "g", "sw")
-                router.process_message(M.GetProperties(version="1.7"), sender=rec)        # settle on selection i
+                case = {"mode": "hardware", "rule": rule, "n": n}
+                try:
+                    router.process_message(M.GetProperties(version="1.7"), sender=rec)        # settle on selection i
+                except Exception as e:
+                    ctx.violate(f"operation-raises:hardware-selector:first-getProperties:{type(e).__name__}",
+                                f"{rule} n={n}: selector at {i}, the first getProperties: {e!r}"[:300], case)
+                    continue
                 del rec.received[:]
                 hw["sel"] = N(j) if j is not None else None
-                case = {"mode": "hardware", "rule": rule, "n": n}
                 ctx.count("transitions")
                 ctx.count("hardware_selector_moves")
                 ctx.case_fast(("hardware", rule, n, i, j, route))
@@ -391,7 +408,7 @@ def explore_hardware(ctx, rule, n):
                     else:
                         router.process_message(M.GetProperties(version="1.7", device="DEV"), sender=rec)
                 except Exception as e:
-                    ctx.violate(f"operation-raises:hardware-selector:{route}:{type(e).__name__}", f"{rule} n={n}: selector {i} -> {j}, {route}: {e!r}", case)
+                    ctx.violate(f"operation-raises:hardware-selector:{route}:{type(e).__name__}", f"{rule} n={n}: selector {i} -> {j}, {route}: {e!r}"[:300], case)
                     continue
                 for m in rec.received:
                     if type(m).__name__ not in ("SetSwitchVector", "DefSwitchVector"):
@@ -440,6 +457,21 @@ def run(ctx):
                     ctx.count("state_graphs_with_nested_element_names")
                 finally:
                     _NAMES[0] = PLAIN_NAMES
+    # the same graph once more with switches kept under ordinary words (vector.on, vector.off, vector.selected ...)
+    j = 400
+    for rule in RULES:
+        for n in (2, 3) if not ctx.thorough else (2, 3, 4, 5):
+            j += 1
+            if not ctx.mine(j):
+                continue
+            _KEYS[0] = WORD_KEYS
+            try:
+                explored = set()
+                for init in initial_configs(rule, n):
+                    explore(ctx, rule, n, init, explored)
+                ctx.count("state_graphs_with_switches_kept_under_ordinary_words")
+            finally:
+                _KEYS[0] = PLAIN_KEYS
     i = 0
     for rule in RULES:
         for n in range(1, 6 if not ctx.thorough else 8):
@@ -471,6 +503,7 @@ def replay(ctx, case):
     from indi.routing import Router
     rule, n, init, node = case["rule"], case["n"], case["init"], case.get("node")
     _NAMES[0] = {1: NESTED_NAMES, 2: NESTED_NAMES_REV}.get(int(case.get("nested_names") or 0), PLAIN_NAMES)
+    _KEYS[0] = WORD_KEYS if case.get("word_keys") else PLAIN_KEYS
     if node is None:
         explore(ctx, rule, n, tuple(init), via_element_defaults=bool(case.get("via_element_defaults")))
         return
